@@ -68,7 +68,11 @@ def spec_from_seed(run_seed, tier):
     if rnd.random() < 0.6:
         for _ in range(rnd.choice([1, 1, 2, 3])):
             faults[str(rnd.randrange(0, 2 * len(calls)))] = rnd.choice(["enoent", "eacces", "eio_open", "read_error@%d" % rnd.choice([0, 5, 40, 300])])
-    return {"kind": "typing", "prop": "C20", "mols": mols, "calls": calls, "faults": faults}
+    spec = {"kind": "typing", "prop": "C20", "mols": mols, "calls": calls, "faults": faults}
+    if tier == "thorough" and rnd.random() < 0.25:
+        # crash-point enumeration: the same history once per (open call, fault kind); execute() loops over them
+        spec["enumerate_faults"] = True
+    return spec
 
 
 def _ff_tuple(p):
@@ -114,6 +118,39 @@ def baseline_typing(req):
 
 
 def execute(spec):
+    if spec.get("enumerate_faults"):
+        # fault-free pass counts the opens of this history; then every open index x every error kind is injected in turn
+        base = dict(spec)
+        base["enumerate_faults"] = False
+        base["faults"] = {}
+        r0 = _execute_one(base)
+        if r0.get("harness_error") or r0["violations"]:
+            return r0
+        n_open = int(r0["stats"].get("opens", 0))
+        agg = r0
+        for idx in range(min(n_open, 24)):
+            for kind in ("enoent", "eio_open", "read_error@7"):
+                sp = dict(base)
+                sp["faults"] = {str(idx): kind}
+                r = _execute_one(sp)
+                if r.get("harness_error"):
+                    return r
+                for k, v in r["stats"].items():
+                    if isinstance(v, (int, float)):
+                        agg["stats"][k] = agg["stats"].get(k, 0) + v
+                agg["stats"]["enumerated_crash_points"] = agg["stats"].get("enumerated_crash_points", 0) + 1
+                if r["violations"]:
+                    for v in r["violations"]:
+                        v["msg"] = f"[fault {kind} at open #{idx}] " + v["msg"]
+                    agg["violations"] = r["violations"]
+                    agg["resolved_spec"] = sp
+                    return agg
+        agg["stats"]["runs"] = 1
+        return agg
+    return _execute_one(spec)
+
+
+def _execute_one(spec):
     g = boot.load()
     c10._ensure_server()
     world = World(Scheduler(1), embed="stub")
@@ -232,6 +269,7 @@ def execute(spec):
     finally:
         signal.alarm(0)
         signal.signal(signal.SIGALRM, old)
+    stats["opens"] = fs.opens
     sig = hashlib.sha1(json.dumps([spec["mols"], spec["calls"], spec["faults"]], sort_keys=True).encode()).hexdigest()
     fired = sum(v for k, v in stats.items() if k.startswith("fault:"))
     nontrivial = stats["results_compared"] >= 4 and (stats["explicit_file_calls"] >= 1 or fired >= 1)
